@@ -9,6 +9,9 @@ def run(ctx):
     ]
     node_check.run(ctx, "C11", genq="C11_genq.cfg", quick_edges=15000, walks=(150, 8000))
     pump(ctx)
+    # the consumers next to every other service and timer of the node (product model CoFull)
+    import full_check
+    full_check.run(ctx, 400 if ctx.tier == "quick" else 20000)
 
 def pump(ctx):
     """255 saturation: scenarios evaluated by TLC on the reference (CoNodeGen!EmitPump): first heartbeat, k in
